@@ -11,7 +11,6 @@ Require Import Spec.Params Spec.Field Spec.Curve Spec.Bytes Spec.Sha256.
 Require Import Model.Base Model.Halfagg.
 Import ListNotations.
 Local Open Scope Z_scope.
-Local Open Scope string_scope.
 
 Fixpoint chunks_h (fuel : nat) (k : nat) (b : bytes) : list bytes :=
   match fuel with O => [] | S f =>
@@ -31,23 +30,25 @@ Definition inc_wire (aggsig alen pks msgs sigs : arg) (nb nn : Z) : list arg :=
   let reads := negb (is_none aggsig) && negb (is_none alen) && (nb <=? n)
                && negb ((len / 32 <=? 0) || (len / 32 - 1 <? n)) in
   if (nb <? 0) || (nn <? 0) || (size_max <=? nb) || (size_max <=? nn) || (len <? 0) then bad_case
-  else if negb (is_none alen) && (blen aggsig <? len) then bad_case
-  else if reads && ((blen pks <? 64 * n) || (blen msgs <? 32 * n) || (blen sigs <? 64 * nn)) then bad_case
+  else if negb (is_none aggsig) && negb (is_none alen) && (blen aggsig <? len) then bad_case
+  else if reads && ((negb (is_none pks) && (blen pks <? 64 * n)) || (negb (is_none msgs) && (blen msgs <? 32 * n))
+                    || (negb (is_none sigs) && (blen sigs <? 64 * nn))) then bad_case
   else halfagg_inc P (opt_bytes aggsig) (match alen with AInt z => Some z | _ => None end)
                    (opt_chunks 64 pks) (opt_chunks 32 msgs) (opt_chunks 64 sigs) nb nn.
 
 Definition dispatch_halfagg (op : string) (a : list arg) : list arg :=
   let A i := nth_arg i a in
-  if op =? "schnorrsig_inc_aggregate" then
+  if String.eqb op "schnorrsig_inc_aggregate"%string then
     inc_wire (A 0%nat) (A 1%nat) (A 2%nat) (A 3%nat) (A 4%nat) (get_int (A 5%nat)) (get_int (A 6%nat))
-  else if op =? "schnorrsig_aggregate" then
+  else if String.eqb op "schnorrsig_aggregate"%string then
     inc_wire (A 0%nat) (A 1%nat) (A 2%nat) (A 3%nat) (A 4%nat) 0 (get_int (A 5%nat))
-  else if op =? "schnorrsig_aggverify" then
+  else if String.eqb op "schnorrsig_aggverify"%string then
     let n := get_int (A 2%nat) in
     let len := blen (A 3%nat) in
     let reads := negb (is_none (A 3%nat)) && negb ((len / 32 <=? 0) || negb (len / 32 - 1 =? n) || negb (len mod 32 =? 0)) in
     if (n <? 0) || (size_max <=? n) then bad_case
-    else if reads && ((blen (A 0%nat) <? 64 * n) || (blen (A 1%nat) <? 32 * n)) then bad_case
+    else if reads && ((negb (is_none (A 0%nat)) && (blen (A 0%nat) <? 64 * n))
+                      || (negb (is_none (A 1%nat)) && (blen (A 1%nat) <? 32 * n))) then bad_case
     else halfagg_aggverify P (opt_chunks 64 (A 0%nat)) (opt_chunks 32 (A 1%nat)) n (opt_bytes (A 3%nat)) len
   else bad_case.
 End Api.
